@@ -65,6 +65,7 @@ def run(repo, rep, tier):
     _handler(repo, rep)
     _functions(repo, rep)
     _formatted(repo, rep)
+    L.state_rule(repo, rep)
 
 
 def _tokenrefs(repo, rep):
@@ -443,6 +444,29 @@ def _retype(repo, rep):
         rep.check("raise_with_traceback(exc, tb)" in text, "R12.3", site,
                   "the decorated exception keeps the original traceback",
                   construct="traceback", where=wh)
+        # ... and leaves: the call that raises it is not inside the body
+        # of a try statement that has handlers (a decorated TypeError would
+        # be caught by 'except TypeError' meant for the class creation, and
+        # the undecorated original re-raised)
+        rw = [n for n in ast.walk(deco) if isinstance(n, ast.Call)
+              and src(n.func) == "raise_with_traceback"]
+        caught = []
+        for n in rw:
+            prev, a_ = n, getattr(n, "_parent", None)
+            while a_ is not None and a_ is not deco:
+                if isinstance(a_, ast.Try) and a_.handlers and any(
+                        prev is st or any(prev is x for x in ast.walk(st))
+                        for st in a_.body):
+                    caught.append(src(a_.handlers[0].type)
+                                  if a_.handlers[0].type is not None
+                                  else "<bare>")
+                prev, a_ = a_, getattr(a_, "_parent", None)
+        rep.check(bool(rw) and not caught, "R12.3", site, "the decorated "
+                  "exception is raised outside every try body that has "
+                  "handlers of its own (whatever its class, it reaches the "
+                  "caller)", construct="decorated-escapes", where=wh,
+                  detail="raised under 'except %s'" % ", ".join(caught)
+                  if caught else "")
         # without recorded errors: plain re-raise
         paths = P.enum_paths(deco.body)
         ok = any(any(e[0] == "cond" and src(e[1]) == "errors" and not e[2]
